@@ -106,6 +106,23 @@ def _scenario(job):
         if prob:
             res['problems'].append({'kind': 'readerr', 'k': rr, 'what': prob, 'err': r['err'], 'tail': T[-6:],
                                     'case': open(cfn).read()})
+        if cfg.stdio:
+            # the failure does not repeat: this read reports EIO, the next ones find the input at its end.  An fread() that
+            # had delivered bytes before the failing read returns them; the failure must still be reported when the scanner
+            # asks for more, not turned into a clean end of file
+            r = run(readerr1=[rr])
+            res['faults']['readerr'] += 1
+            T = _trace_core(r['out'])
+            if r['rc'] != 0:
+                res['problems'].append({'kind': 'readerr1', 'k': rr, 'what': 'scanner crashed / sanitizer report (rc=%s) after read %d failed once' % (r['rc'], rr),
+                                        'err': r['err'], 'tail': T[-6:], 'case': open(cfn).read()})
+            elif not any(l.startswith('fatal readerr') for l in T):
+                if r['stats'].get('deadreads', 0) >= 1:
+                    res['problems'].append({'kind': 'readerr1', 'k': rr,
+                                            'what': 'read call %d failed once (EIO), the calls after it found the input at its end: the scanner read on from the same stream and did not report the failure' % rr,
+                                            'err': r['err'], 'tail': T[-6:], 'case': open(cfn).read()})
+            else:
+                res['fired']['readerr'] += 1
         r = run(eintr=[rr])
         res['faults']['eintr'] += 1
         T = _trace_core(r['out'])
